@@ -173,9 +173,9 @@ package actionlint
 //@ func (*parser).parseOutputs
 //@   at_call [C13 C08] (*parser).parseSectionMapping: !caseSensitive
 //@ func (*parser).parseMatrix
-//@   at_call [C13 C08] (*parser).parseSectionMapping: !caseSensitive
+//@   at_call [C13 C08 C05] (*parser).parseSectionMapping: !caseSensitive
 //@ func (*parser).parseMatrixCombinations
-//@   at_call [C13 C08] (*parser).parseMapping: !caseSensitive
+//@   at_call [C13 C08 C05] (*parser).parseMapping: !caseSensitive
 //@ func (*parser).parseRawYAMLValue
 //@   at_call [C13 C08 C19] (*parser).parseMapping: !caseSensitive
 //@ func (*parser).parseStrategy
@@ -219,3 +219,11 @@ package actionlint
 // each missing mandatory top-level key is reported on its own
 //@ func (*parser).parse
 //@   ensures [C13] len(n.Content) != 0 && result.On == nil && result.Jobs == nil ==> len(p.errors) >= old(len(p.errors)) + 2
+
+// C07: the credentials-pair report is made at the `credentials` key, the run/uses conflict at the
+// conflicting key
+//@ func (*parser).parseContainer
+//@   at_call [C07] (*parser).errorAt: pos == kv.key.Pos
+//@ func (*parser).parseStep
+//@   loop "range p.parseMapping(\"element of \\\"steps\\\" section\", n, false, true)":
+//@     at_call [C07] (*parser).errorfAt: pos == kv.key.Pos
